@@ -118,10 +118,21 @@ func ExecuteRequest(ctx context.Context, req *thunderpb.ExecuteRequest, gqlSchem
 		}, nil
 	}, time.Hour, false)
 
-	<-done
+	// The rerunner never runs the computation if ctx is already canceled, so waiting
+	// for done alone would block forever.
+	select {
+	case <-done:
+	case <-ctx.Done():
+	}
 
+	// Stop waits for a computation that is still running.
 	rerunner.Stop()
-	return queryResponse, queryError
+	select {
+	case <-done:
+		return queryResponse, queryError
+	default:
+		return nil, ctx.Err()
+	}
 }
 
 func (s *Server) Execute(ctx context.Context, req *thunderpb.ExecuteRequest) (*thunderpb.ExecuteResponse, error) {
